@@ -24,6 +24,8 @@ type C16Conn struct {
 	DelayMs  int    `json:"delay_ms,omitempty"`
 	Yields   int    `json:"yields,omitempty"`
 	HookFail bool   `json:"hook_fail,omitempty"`
+	// HookFailCtx: the failing connect hook hands back a (derived) context together with its error
+	HookFailCtx bool `json:"hook_fail_ctx,omitempty"`
 }
 
 type C16Sc struct {
@@ -55,6 +57,7 @@ func genC16(g *simrt.Tape, tier string) any {
 		c.DelayMs = []int{0, 0, 0, 1, 50, 500, 2000}[g.Draw(7)]
 		c.Yields = g.Draw(6)
 		c.HookFail = g.Draw(8) == 0
+		c.HookFailCtx = c.HookFail && g.Draw(2) == 0
 		sc.Conns = append(sc.Conns, c)
 	}
 	sc.ShutdownMs = []int{0, 0, 1, 50, 100, 500, 1000, 2000, 6000}[g.Draw(9)]
@@ -116,10 +119,11 @@ func execC16(x *X, scAny any) {
 			sc.Conns[i].HookFail = false // nothing can refuse a connection
 		}
 	}
-	failAddr := map[string]bool{}
+	failAddr, failCtx := map[string]bool{}, map[string]bool{}
 	for i, c := range sc.Conns {
 		if c.HookFail {
 			failAddr[fmt.Sprintf("k%d.s.peer", i)] = true
+			failCtx[fmt.Sprintf("k%d.s.peer", i)] = c.HookFailCtx
 		}
 	}
 	w.serveYields = sc.ServeYields
@@ -134,6 +138,9 @@ func execC16(x *X, scAny any) {
 				hk(addr).connectFail++
 				w.record(hEvent{Kind: "hook-connect-fail", ConnID: addr})
 				s.Eventf("connect hook fails %s", addr)
+				if failCtx[addr] {
+					return context.WithValue(ctx, ctxMarkKey{}, "refused"), errors.New("connect hook refuses " + addr)
+				}
 				return nil, errors.New("connect hook refuses " + addr)
 			}
 			hk(addr).connectOK++
@@ -437,6 +444,9 @@ func c16Floor(tier string) []*C16Sc {
 			for _, ms := range []int{0, 500, 2000} {
 				for _, hf := range []bool{false, true} {
 					out = append(out, &C16Sc{Conns: []C16Conn{{Phase: ph, Tok: tok, HookFail: hf}, {Phase: "request", Tok: "ok", DelayMs: ms}}, ShutdownMs: 500})
+					if hf {
+						out = append(out, &C16Sc{Conns: []C16Conn{{Phase: ph, Tok: tok, HookFail: true, HookFailCtx: true}, {Phase: "request", Tok: "ok", DelayMs: ms}}, ShutdownMs: 500})
+					}
 					if ph == "no-read" || ph == "no-read-2" || ph == "pipeline" {
 						out = append(out, &C16Sc{Conns: []C16Conn{{Phase: ph, Tok: tok, HookFail: hf}, {Phase: "request", Tok: "ok", DelayMs: ms}}, ShutdownMs: 500, Capacity: 16})
 					}
